@@ -1,7 +1,7 @@
 (** Correspondence + property checker for C19 (fee arithmetic).
     Observations: [None] = the implementation failed (error or panic), [Some v] = result. *)
 From Coq Require Import ZArith NArith List String Bool.
-From PV Require Export Exchange.Arith Corr.CorrBase.
+From PV Require Export Exchange.Arith Exchange.FeeQuote Corr.CorrBase.
 Import ListNotations.
 Open Scope string_scope.
 Open Scope list_scope.
@@ -15,8 +15,15 @@ Inductive case :=
 | CCommit (i : cfee_in) (obs : option (Z * Z))           (* CalculateCommitmentSettlementFee:
                                                             (converted intermediary amount, fee) *)
 | CBips (amt bips : Z) (obs : option (Z * Z))            (* msgfees SplitCoinByBips *)
-| CDist (ops : list (Z * Z * option N)) (nrec : N) (obs : Z * Z * list Z).
+| CDist (ops : list (Z * Z * option N)) (nrec : N) (obs : Z * Z * list Z)
     (* MsgFeesDistribution.Increase sequence; obs = (total, module part, amount per recipient id 0..nrec-1) *)
+| CBuyerOpts (rs : list ratio) (pd : N) (p : Z) (obs : option (list (N * Z)))
+    (* OrderFeeCalc for a bid: the settlement ratio fee options (fee denom, amount), [None] = error *)
+| CSellerFee (rs : list ratio) (pd : N) (p : Z) (obs : option (option Z))
+    (* OrderFeeCalc for an ask: the seller ratio fee in the price denom (negative = malformed answer) *)
+| CMeter (ops : list mop) (nrec : N) (obs : Z * Z * list Z).
+    (* one transaction's fee meter filled as the router does and paid out by DeductFeesDistributions:
+       obs = (FeeConsumed, fee collector's gain, gain of recipient 0..nrec-1) *)
 
 Definition flat {A} (o : option (option A)) : option A :=
   match o with Some (Some x) => Some x | _ => None end.
@@ -45,6 +52,13 @@ Definition in_range (x : Z) : bool := (0 <=? x) && (x <? int_max).
 
 Definition others_ok (l : list (Z * Z * Z)) : bool :=
   forallb (fun o => let '(a, p, n) := o in (0 <=? a) && (0 <=? p) && (0 <? n) && in_range (a * p)) l.
+
+Definition nz_eqb := pair_eqb N.eqb Z.eqb.
+
+Definition ratio_okb (r : ratio) : bool := (0 <? r_p r) && (0 <=? r_f r) && in_range (r_p r) && in_range (r_f r).
+
+(** [x] is the ceiling of p * fee / price of ratio [r]. *)
+Definition chargeb (r : ratio) (p x : Z) : bool := ceil_ok (p * r_f r) (r_p r) x.
 
 Definition check (c : case) : list string :=
   match c with
@@ -110,6 +124,39 @@ Definition check (c : case) : list string :=
          tag ((0 <=? modp) && forallb (fun v => 0 <=? v) recs) "prop:distribution_part_negative" ++
          tag (Z.eqb tot (fold_right (fun o acc => let '(a, _, _) := o in (if 0 <? a then a else 0) + acc) 0 ops))
              "prop:distribution_total_is_not_the_sum_of_the_fees"
+       else [])
+  | CBuyerOpts rs pd p obs =>
+      tag (opt_eqb (list_eqb nz_eqb) (buyer_options rs pd p) obs) "corr:buyer_ratio_options" ++
+      (if forallb ratio_okb rs && (0 <=? p) && forallb (fun r => in_range (p * r_f r + 1)) rs then
+         let mine := filter (fun r => N.eqb (r_pd r) pd) rs in
+         match obs with
+         | Some l =>
+             tag (forallb (fun e => existsb (fun r => N.eqb (r_fd r) (fst e) && chargeb r p (snd e)) mine) l)
+                 "prop:quoted_buyer_option_is_not_the_charge_of_a_ratio_for_the_price_denom" ++
+             tag (forallb (fun r => existsb (fun e => N.eqb (r_fd r) (fst e) && chargeb r p (snd e)) l) mine)
+                 "prop:buyer_ratio_for_the_price_denom_not_quoted" ++
+             tag (Nat.eqb (List.length l) (List.length mine)) "prop:buyer_options_count"
+         | None => tag (match mine with [] => true | _ => false end) "prop:buyer_options_failed"
+         end else [])
+  | CSellerFee rs pd p obs =>
+      tag (opt_eqb (opt_eqb Z.eqb) (seller_ratio_fee rs pd p) obs) "corr:seller_ratio_fee" ++
+      (if forallb ratio_okb rs && (0 <=? p) && forallb (fun r => in_range (p * r_f r + 1)) rs then
+         let mine := filter (fun r => N.eqb (r_pd r) pd && N.eqb (r_fd r) pd) rs in
+         match obs with
+         | Some (Some x) => tag (existsb (fun r => chargeb r p x) mine) "prop:seller_ratio_fee_is_ceiling"
+         | Some None => tag (match rs with [] => true | _ => false end) "prop:seller_ratio_fee_missing"
+         | None => tag (match mine with [] => true | _ => false end) "prop:seller_ratio_fee_failed"
+         end else [])
+  | CMeter ops nrec (tot, modp, recs) =>
+      let m := meter_run ops in
+      let ids := map N.of_nat (seq 0 (N.to_nat nrec)) in
+      tag (Z.eqb (meter_total m) tot && Z.eqb (meter_for m None) modp
+           && list_eqb Z.eqb (map (fun i => meter_for m (Some i)) ids) recs) "corr:tx_fee_meter" ++
+      (if forallb (fun o => let '(_, a, b, _) := o in (0 <=? b) && (b <=? 10000) && (a <? int_max)) ops then
+         tag (Z.eqb tot (modp + fold_right Z.add 0 recs)) "prop:tx_fee_parts_do_not_add_up" ++
+         tag (list_eqb Z.eqb (map (fun i => shares ops i) ids) recs) "prop:recipient_does_not_get_the_sum_of_its_floor_shares" ++
+         tag (Z.eqb tot (fees_total ops)) "prop:tx_fee_total_is_not_the_sum_of_the_fees" ++
+         tag ((0 <=? modp) && forallb (fun v => 0 <=? v) recs) "prop:tx_fee_part_negative"
        else [])
   end.
 
